@@ -8,6 +8,7 @@ is the answer of *fresh objects* on one plain call.  All code is real."""
 import ctypes
 import hashlib
 import json
+import os
 import sys
 from collections import Counter
 
@@ -57,7 +58,7 @@ def assumptions():
         "fresh-object reference: new calculator, generators and grids objects, nset=1, default max_memory, one call",
         "tolerance 1e-10*max(1,|ref|): block summation order and BLAS alignment legitimately move results by ~1e-16..1e-13",
         "allocator content is perturbed with glibc mallopt(M_PERTURB) (also fills NumPy array storage obtained from malloc)",
-        "interrupted calls are not part of the property and are not injected",
+        "a call interrupted by an injected failure (MemoryError at a seeded Python line inside the package) is un-acknowledged: nothing is demanded of it, but every later call on the same objects is compared with fresh objects",
     ]
 
 
@@ -71,6 +72,58 @@ def set_perturb(byte):
     if _libc is None:
         _libc = ctypes.CDLL("libc.so.6")
     _libc.mallopt(ctypes.c_int(-6), ctypes.c_int(int(byte) & 0xFF))
+
+
+class InjectedFault(MemoryError):
+    pass
+
+
+class FaultAt:
+    """Fail a call at a seeded point: the k-th Python line executed inside the package
+    during the call raises MemoryError there (an allocation that fails, or the user's
+    Ctrl-C, at an arbitrary instant).  The interrupted call is un-acknowledged - nothing
+    is demanded of it - but every later call on the same objects must still answer like
+    fresh objects do."""
+
+    def __init__(self, k):
+        self.k = int(k) if k else 0
+        self.n = 0
+        self.fired = False
+        self.where = None
+        self.prefix = os.path.join(os.path.realpath(boot.repo_root()), "ciderpress") + os.sep
+
+    def _local(self, frame, event, arg):
+        if event == "line":
+            self.n += 1
+            if self.n == self.k and not self.fired:
+                self.fired = True
+                self.where = "%s:%s" % (frame.f_code.co_filename[len(self.prefix) :], frame.f_code.co_name)
+                raise InjectedFault("injected failure at line event %d" % self.k)
+        return self._local
+
+    def _global(self, frame, event, arg):
+        fn = frame.f_code.co_filename
+        if fn.startswith(self.prefix) or os.path.realpath(fn).startswith(self.prefix):
+            return self._local
+        return None
+
+    def __enter__(self):
+        if self.k:
+            sys.settrace(self._global)
+        return self
+
+    def __exit__(self, *exc):
+        if self.k:
+            sys.settrace(None)
+        return False
+
+
+def draw_fault(rng, hi=3000):
+    """line-event ordinal, log-uniform so that early set-up code and late accumulation code
+    are both hit"""
+    import math
+
+    return int(math.exp(rng.uniform(0.0, math.log(hi)))) + 1
 
 
 def scribble(hist, stats, *arrays):
@@ -281,6 +334,12 @@ def gen_ni_history(seed):
                     "alias": rng.choice([None, None, None, "readonly", "fortran", "sameab"]),
                 }
             )
+            if rng.chance(0.12):
+                # the call is interrupted at a seeded point (un-acknowledged); most users then
+                # simply issue it again on the same objects
+                ops[-1]["fault"] = draw_fault(rng)
+                if rng.chance(0.7):
+                    ops.append({k_: v_ for k_, v_ in ops[-1].items() if k_ != "fault"})
         elif c == "regrid":
             ops.append({"op": "regrid", "mol": rng.below(nmol), "grid": rng.below(len(grids))})
         elif c == "regrid_inplace":
@@ -405,10 +464,19 @@ def exec_ni_history(hist, rp):
             arg = (arg[0], arg[0])  # the *same* array object as alpha and beta
         before = adigest(*(arg if isinstance(arg, (list, tuple)) else [arg]), g.coords, g.weights, mol._atm, mol._bas, mol._env)
         fn = ni.nr_uks if uks else ni.nr_rks
+        inj = FaultAt(op.get("fault"))
         try:
-            n, e, v = fn(mol, g, ks.xc, arg, max_memory=op["max_memory"])
+            with inj:
+                n, e, v = fn(mol, g, ks.xc, arg, max_memory=op["max_memory"])
         except Exception as ex:
             import traceback
+
+            if inj.fired:
+                # un-acknowledged call: nothing is demanded of it; the objects live on
+                stats["calls_interrupted_by_injected_failure"] += 1
+                stats["fault_site_" + inj.where] += 1
+                dg.add("fault", inj.where)
+                continue
 
             tb = traceback.extract_tb(ex.__traceback__)
             ref_exc = None
@@ -423,6 +491,8 @@ def exec_ni_history(hist, rp):
                 break
             V("call-raises:%s:%s:%s" % ("nr_uks" if uks else "nr_rks", type(ex).__name__, tb[-1].name if tb else "?"), "step %d: %s" % (step, str(ex)[:200]))
             break
+        if op.get("fault") and not inj.fired:
+            stats["injected_failure_point_beyond_end_of_call"] += 1
         after = adigest(*(arg if isinstance(arg, (list, tuple)) else [arg]), g.coords, g.weights, mol._atm, mol._bas, mol._env)
         scribble(hist, stats, *(arg if isinstance(arg, (list, tuple)) else [arg]))
         stats["calls"] += 1
@@ -515,14 +585,19 @@ def gen_gen_history(seed):
             s = rng.below(p["nspin"])
             if s in have and rng.chance(0.5):
                 ops.append({"op": "pot", "spin": s, "v": rng.below(npool), "alias": rng.choice([None, None, "readonly"]), "obj": rng.below(nobj)})
+                if rng.chance(0.1):
+                    ops[-1]["fault"] = draw_fault(rng, 300)
             else:
                 # mode: "plain" = sorted-grid layout (energy path); "nomap" / "grad" = atomic-grid
                 # layout without / with the force intermediates (what the gradient code calls on
                 # the calculator's generator between energy evaluations)
                 # alias "reuse": the caller keeps one workspace array per spin and refills it in
                 # place before calling again (what an SCF driver with preallocated buffers does)
-                ops.append({"op": "feat", "spin": s, "rho": rng.below(npool), "alias": rng.choice([None, None, "readonly", "view", "reuse", "reuse"]), "mode": rng.weighted([("plain", 6), ("nomap", 2), ("grad", 2)]), "obj": rng.below(nobj)})
+                ops.append({"op": "feat", "spin": s, "rho": rng.below(npool), "alias": rng.choice([None, "readonly", "view", "reuse", "reuse", "reuse"]), "mode": rng.weighted([("plain", 6), ("nomap", 2), ("grad", 2)]), "obj": rng.below(nobj)})
                 have.add(s)
+                if rng.chance(0.1):
+                    ops[-1]["fault"] = draw_fault(rng, 400)
+                    have.discard(s)  # an interrupted feature pass leaves nothing to build a potential from
         return {"kind": "nldfgen", "params": p, "ops": ops, "nobj": nobj, "perturb": rng.choice(PERTURBS)}
     p = W.draw_sdmx_params(rng)
     p["nspin"] = rng.choice([1, 2])
@@ -639,9 +714,17 @@ def exec_nldfgen_history(hist, rp):
                 big[1 : nrow + 1] = arr
                 arr = big[1 : nrow + 1]
             b = adigest(arr)
+            inj = FaultAt(op.get("fault"))
             try:
-                f = gen.get_features(arr, spin=s, **KW[mode])
+                with inj:
+                    f = gen.get_features(arr, spin=s, **KW[mode])
             except Exception as ex:
+                if inj.fired:
+                    stats["calls_interrupted_by_injected_failure"] += 1
+                    stats["fault_site_" + inj.where] += 1
+                    last_rho.pop(sk, None)
+                    last_mode.pop(sk, None)
+                    continue
                 V("call-raises:LCAONLDFGenerator.get_features:%s:%s" % (type(ex).__name__, op["alias"]), "step %d (%s): %s" % (step, mode, str(ex)[:200]))
                 break
             if adigest(arr) != b:
@@ -663,9 +746,17 @@ def exec_nldfgen_history(hist, rp):
             if op["alias"] == "readonly":
                 arr.setflags(write=False)
             b = adigest(arr)
+            inj = FaultAt(op.get("fault"))
             try:
-                pot = gen.get_potential(arr, spin=s, **KW[mode])
+                with inj:
+                    pot = gen.get_potential(arr, spin=s, **KW[mode])
             except Exception as ex:
+                if inj.fired:
+                    # the feature pass of this spin stays valid: a repeated potential
+                    # evaluation must still work
+                    stats["calls_interrupted_by_injected_failure"] += 1
+                    stats["fault_site_" + inj.where] += 1
+                    continue
                 V("call-raises:LCAONLDFGenerator.get_potential:%s:%s" % (type(ex).__name__, op["alias"]), "step %d (%s): %s" % (step, mode, str(ex)[:200]))
                 break
             if adigest(arr) != b:
@@ -1522,6 +1613,17 @@ def coverage(done, tier):
             "repeated_potential_evaluations": tot["potential_calls"],
             "earlier_results_rechecked_after_later_calls": tot["held_results_rechecked"],
             "allocator_patterns": {k[8:]: v for k, v in tot.items() if k.startswith("perturb_")},
+            "calls_interrupted_by_injected_failure": tot["calls_interrupted_by_injected_failure"],
+            "injected_failure_sites": {k[11:]: v for k, v in sorted(tot.items()) if k.startswith("fault_site_")},
+            "injected_failure_point_beyond_end_of_call": tot["injected_failure_point_beyond_end_of_call"],
+            "caller_buffers_overwritten_after_call": tot["caller_buffers_overwritten_after_call"],
+            "caller_workspace_refilled_in_place": tot["workspace_refilled_in_place"],
+            "lookalike_inputs": tot["lookalike_inputs"],
+            "ops_on_second_live_object_of_a_kind": tot["ops_on_second_live_object"] + tot["calls_on_second_calculator_of_a_model"],
+            "calls_on_grid_above_block_cap": tot["calls_on_grid_above_block_cap"],
+            "generator_calls_by_layout": {k[10:]: v for k, v in tot.items() if k.startswith("feat_mode_")},
+            "descriptor_generator_coordinate_retargets": tot["coordinate_retargets"],
+            "force_evaluations_rejected_as_unsupported_by_both": tot["grad_not_implemented_on_both"],
         },
         "probes": {
             "nldf_generator_reused": tot["nldf_generator_reused"],
